@@ -924,6 +924,11 @@ impl From<G2> for G2Prepared {
 }
 impl G2Prepared {
     pub fn pairing(&self, g1: &G1) -> Gt {
+        // e(O, Q) = 1: the affine-only Miller loop must not see an identity,
+        // whose x, y are arbitrary (e.g. the (x, y, 0) left behind by P - P)
+        if g1.is_zero() {
+            return Gt::one();
+        }
         let mut g = *g1;
         g.normalize();
         Gt(self
@@ -938,6 +943,11 @@ pub fn pairing(p: G1, q: G2) -> Gt {
 }
 /// compute R-ate Pairing G2 x G1 -> GT
 pub fn fast_pairing(mut p: G1, mut q: G2) -> Gt {
+    // e(O, Q) = e(P, O) = 1, as in pairing(): normalize() leaves an identity
+    // untouched, and the affine-only fast path would read its arbitrary x, y
+    if p.is_zero() || q.is_zero() {
+        return Gt::one();
+    }
     p.normalize();
     q.normalize();
     Gt(pairings::fast_pairing(&p.0, &q.0))
